@@ -67,6 +67,7 @@ declare_class(
         "bp_per_texel": REAL,
         "scaffold_namer": TRef("ScaffoldNamer"),
         "found_fragments": TDict(TTuple([STR, INT, INT]), TRef("FoundFragment")),
+        "fragments_found_more_than_once": TDict(TTuple([STR, INT, INT]), TRef("FoundFragment")),
     },
 )
 # groups and names chromosomes across haplotypes: opaque here (its effect is limited to Scaffold.name, see the
